@@ -38,7 +38,7 @@ claimed["C18"] = (
     "is a symbolic value (every aliasing pattern - duplicates, absent handlers, the same handler named twice - is one symbolic state); lists of up to 3+2 (quick) / 4+3 (thorough) handlers, "
     "off() with 0..2/3 arguments; asserts multiset equality with filter-out-all-named, no panic, mutex released. Because the pre-state is arbitrary one step covers all call sequences. "
     "eventHandlerStore.off likewise over two events with handler identity = code pointer (reflect model). The public On/Once/Off wrappers of Manager, Server, Namespace, serverSocket, "
-    "clientSocket are executed concretely through the same executor (Off(f) removes f and only f; Once fires once).",
+    "clientSocket are executed concretely through the same executor: ALL 17 typed lifecycle events (C18_api_all) with f and g registered by On, h by Once, Off called with one handler / with none (everything goes) / with two, then two occurrences: removed handlers never run, On handlers twice, Once handlers once.",
     "Two occurrences racing (plus an Off) under all interleavings: a Once handler goes to at most one occurrence, an On handler to both. Overlapping occurrences: the handler list handed to an occurrence in flight is not changed by later registrations or occurrences, for every n <= 4 (quick) / 9 (thorough) On handlers (all slice capacities crossed), in both stores. Outside the claim: distinct closures sharing one code pointer (reflect cannot tell them apart - the repo's own notion of identity); lists longer than the bounds.",
     "5 (C18)")
 
@@ -48,7 +48,7 @@ claimed["C04"] = (
     "the sockets the 5-line reference selects, once each, never to the sender; one membership operation from every 2x2 (quick) / 3x2 (thorough) state (join, leave, leave-all, SocketsJoin, SocketsLeave, DisconnectSockets with sockets calling back "
     "into the adapter, leaving the own-id room) from every such state yields exactly the specified new membership, a broadcast without target rooms afterwards still reaches every connected socket once, and preserves the representation invariant (rooms/sids mutually inverse, no empty room kept) - one inductive "
     "step covers histories of any length over that universe. C04_select_own lets T and E also contain the sockets' own-id rooms (To(socketID)/Except(socketID): a socket selected through its own room AND a joined room is still reached once), for Broadcast and FetchSockets, 2x2 (quick) / 3x2 (thorough). To/Except immutability is checked concretely.",
-    "Also: a broadcast racing a join / leave / disconnect of a third socket under all interleavings (interval semantics: member throughout exactly once, non-member never, changing socket at most once). Outside the claim: multi-node adapters; universes larger than 3x3; end-to-end delivery. "
+    "Also: a Join / SocketsJoin racing the socket's teardown (shared kernel with C06_join_race): afterwards no room lists the socket. A broadcast racing a join / leave / disconnect of a third socket under all interleavings (interval semantics: member throughout exactly once, non-member never, changing socket at most once). Outside the claim: multi-node adapters; universes larger than 3x3; end-to-end delivery. "
     "Map iteration follows insertion order in the executor (Go leaves it unspecified).",
     "5 (C04)")
 
@@ -72,7 +72,7 @@ claimed["C09"] = (
     "[]*struct / [][]any / map in map / struct value with interface field) with ANY bytes in 1..2 Binary leaves of 0..2 (quick) / 0..3 (thorough) bytes each: the frames are exactly '5<n>-' + the JSON text with the "
     "n-th leaf (walk order) replaced by {\"_placeholder\":true,\"num\":n} + the n attachments byte-identical and in order; the caller's values are unchanged afterwards (snapshot comparison); encoding the same "
     "values again yields the same frames, also with the SAME header object (the kept packets of connection state recovery: found a defect there, repaired); and the frames fed to a second parser's Add complete exactly once with the last frame and decode (typed struct, map[string]any, map[string]Binary targets) to byte-identical "
-    "leaves. The JSON library is a structural renderer that `sv selftest C09` compares with encoding/json on the whole menu.",
+    "leaves. A REFUSED Encode (two-leaf shapes against maxAttachments = 1, or a trailing *Binary) leaves the values intact as well and they still encode with a parser without the limit. The JSON library is a structural renderer that `sv selftest C09` compares with encoding/json on the whole menu.",
     "Outside the claim (structural): everything encoding/json does beyond string literals and the shapes of the menu (numbers, unicode escapes, field tags, map key order with several keys); argument trees outside "
     "the menu; ack ids above the bound (the digit loop is the same code; 64-bit div/mod chains exceed the solver budget); non-ASCII / control characters in event names.",
     "5 (C09)")
@@ -93,7 +93,7 @@ claimed["C19"] = (
     "Once, WaitGroup): pollQueue with one consumer poll and 1..2 (quick) / 1..3 (thorough) producers, plus the stale-signal scenario (a leftover wake-up must not make the next poll answer empty) and TWO pending polls with two adds from one or two producers (no poll left waiting while a packet is queued, each packet returned by exactly one poll); packetQueue with "
     "a consumer polling in a loop, 1..2 producers and an optional closer. Timers are disabled in these harnesses (a timeout is exactly the unrelated event that must not be needed), so the critical schedule "
     "'producer runs between the consumer's emptiness check and its wait' is one of the explored paths, not a matter of luck. Asserts at quiescence: consumer not parked while packets are queued, no empty answer, "
-    "every packet delivered or queued exactly once. A happens-before race monitor runs on all shared cells. Counterexample schedules are replayed natively through instrumented copies of the package's files "
+    "every packet delivered or queued exactly once. Across the transport swap (kernel shared with C07_swap_server): messages sent while the real upgradeTo runs never stay behind in the discarded polling queue. A happens-before race monitor runs on all shared cells. Counterexample schedules are replayed natively through instrumented copies of the package's files "
     "(verifSched() gates before every visible operation).",
     "Bounds: preemption bound 3 (pollQueue) / 2 (packetQueue), <= 60 scheduling decisions per path. Outside the claim: what HTTP does with the poll response, the drain/close handshake of the sender goroutine beyond 'closed is reported', more threads.",
     "5 (C19)")
@@ -157,7 +157,7 @@ claimed["C05"] = (
     "addressed to /, /a, /b (existing, not joined), /zz (not existing) or '' through the real serverConn.onEIOPacket/onParserFinish: dispatched only to the socket of exactly that namespace; non-CONNECT for a namespace "
     "without a socket, or CONNECT for one already joined, closes the connection and reaches nobody; CONNECT for an existing unjoined namespace attaches the client there and nowhere else; DISCONNECT leaves the other "
     "namespaces connected; (3) per-namespace adapters, rooms and ack-id counters; a namespace broadcast reaches only that namespace's socket; disconnecting one namespace keeps the other's socket and rooms; (4) attach only after acceptance: while the middleware of a requested namespace is still deciding (it even joins a room), broadcasts to that "
-    "namespace and to that room put nothing on the connection, the socket is not listed, the traffic of the attached namespace goes on; acceptance attaches, refusal attaches nothing and nothing is ever sent for it; (5) client side: the router (an event reaches only the client socket of exactly its namespace, symbolic look-alike names included) and error isolation (an undecodable event on /a never invokes a handler of a sibling namespace that is connected or waiting for its CONNECT answer - in particular not its connect_error handlers - and leaves its state untouched).",
+    "namespace and to that room put nothing on the connection, the socket is not listed, the traffic of the attached namespace goes on; acceptance attaches, refusal attaches nothing and nothing is ever sent for it; (6) packets of one namespace that follow each other at once are judged in the state their predecessors leave behind: DISCONNECT /a + CONNECT /a, or CONNECT /b + EVENT /b, in one payload: connection stays, other namespace stays, namespace attached again; (5) client side: the router (an event reaches only the client socket of exactly its namespace, symbolic look-alike names included) and error isolation (an undecodable event on /a never invokes a handler of a sibling namespace that is connected or waiting for its CONNECT answer - in particular not its connect_error handlers - and leaves its state untouched).",
     "Outside the claim: interleavings of CONNECT replies (sequential here), everything JSON.",
     "5 (C05)")
 
@@ -183,7 +183,8 @@ claimed["C14"] = (
     "pingTimeout after the last sign of life and not before pingTimeout without a pong, transport closed. Upgrade probe: a probe PING on a candidate transport at a symbolic instant, then silence: still detected within pingInterval + pingTimeout of the start (a probe is no heartbeat answer). Client: the real handleTimeout re-armed by pings through the real handlePacket: never closes while ping gaps "
     "stay below pingInterval+pingTimeout, closes with the ping-timeout reason exactly pingInterval+pingTimeout after the last ping, every ping answered with a pong.",
     "Outside the claim: wall-clock behaviour and OS scheduling latency (virtual time has none; native replay allows 60ms slack and only confirms violations larger than that), transports, proxies, one-directional loss, "
-    "upgrades in flight, a ping delayed inside the polling queue (C19 covers that queue).",
+    "the CLIENT's connect path (clientSocket.connect: HTTP handshake, then the watchdog and the upgrade are started - a seeded change that starts the watchdog only after the upgrade attempt, C14e, is NOT caught: the harness starts handleTimeout itself), "
+    "client-side upgrades in flight, a ping delayed inside the polling queue (C19 covers that queue).",
     "5 (C14)")
 
 claimed["C07"] = (
